@@ -874,6 +874,7 @@ def run(chk, F):
         rule_r3(chk, c, R, M)
         rule_r5(chk, c, R)
         rule_r6(chk, F)
+        rule_r7(chk, F)
     except (Uninterpretable, cm.Unint) as e:
         # a construct the rules cannot interpret is an analysis failure (exit 2), never a violation
         raise factsmod.AnalysisError("C11", "cannot interpret: %s" % e)
@@ -946,3 +947,63 @@ def rule_r6(chk, F):
             r.violation("%s:int64-offset-narrowing:no-upper-bound-guard" % p,
                         "the Int64 selector offset is truncated to Int32 without an emitted guard `selector > last → "
                         "default`: first + 2^32 selects the first literal's arm", where)
+
+
+def rule_r7(chk, F):
+    """C11.R7: the jump-table lowering groups the arms per literal value.  "Selects the first arm whose pattern and
+    guard hold" needs every value's candidate list to contain, in source order, the wildcard arms written *before* the
+    value's first own arm (a guarded `_ if g` in front of `1 => …`) and those written after it.  Structurally: in the
+    grouping function the list of wildcard arms seen so far flows into a value's list when that list is created, and
+    a later wildcard arm is appended to every existing value list."""
+    r = chk.rule("C11.R7", "arm grouping of the jump-table lowering keeps first-match order: a value's candidate list "
+                           "is created from the wildcard arms seen so far, and every later wildcard arm is appended "
+                           "to all existing value lists")
+    fe = F.crate("dora_frontend")
+    n_inst = 0
+    for p, b in sorted(fe.hir.items()):
+        if "generator" not in p:
+            continue
+        for n in hirq.walk(b["body"]):
+            if n[0] != "match":
+                continue
+            some_arm = none_arm = None
+            for pat, guard, body in n[2]:
+                ctors = [m[1][2] for m in hirq.walk(pat) if m[0] in ("pts", "ppath", "pstruct") and hirq.is_node(m[1])]
+                if any(c.endswith("Option::Some") for c in ctors):
+                    some_arm = body
+                elif any(c.endswith("Option::None") for c in ctors):
+                    none_arm = body
+            if some_arm is None or none_arm is None:
+                continue
+            wild = {hirq.strip(m[4])[1] for m in hirq.walk(none_arm)
+                    if m[0] == "mcall" and m[3] == "push" and hirq.strip(m[4])[0] == "local"}
+            maps = {hirq.strip(m[4])[1] for m in hirq.walk(some_arm)
+                    if m[0] == "mcall" and m[3] in ("entry", "insert", "get_mut") and hirq.strip(m[4])[0] == "local"}
+            # the wildcard list is the pushed-to local of the None arm that is not a per-value list taken from the map
+            wild = {w for w in wild if not any(m[0] in ("let",) and m[1][0] == "pbind" and m[1][1] == w
+                                               for m in hirq.walk(none_arm))}
+            bound_in_none = {m[1] for m in hirq.walk(none_arm) if m[0] == "pbind"}
+            wild -= bound_in_none
+            if not wild or not maps:
+                continue
+            n_inst += 1
+            W, M = sorted(wild)[0], sorted(maps)[0]
+            key = "%s:%s:%s" % (p, M, W)
+            seeds = any(m == ["local", W] for m in hirq.walk(some_arm))
+            appends = any(m == ["local", M] for m in hirq.walk(none_arm))
+            r.instance(key, sample={"function": last(p), "value_lists": M, "wildcard_arms": W,
+                                    "value_list_created_from_wildcards": seeds,
+                                    "later_wildcard_appended_to_value_lists": appends})
+            where = "%s:%d" % (b["file"], b["line"])
+            if not seeds:
+                r.violation(key + ":value-list-not-seeded-with-earlier-wildcard-arms",
+                            "%s: a literal's candidate list is created without the wildcard arms seen so far (%s is "
+                            "not read where %s gets a new entry): `match v { _ if g => a, 1 => b, … }` with v == 1 "
+                            "and g true dispatches straight to arm b, not to the first arm that holds"
+                            % (last(p), W, M), where)
+            if not appends:
+                r.violation(key + ":later-wildcard-not-appended-to-value-lists",
+                            "%s: a wildcard arm is not appended to the existing per-value lists (%s is not touched "
+                            "in the wildcard case): `match v { 1 if g => a, _ => b }` with v == 1 and g false finds "
+                            "no candidate after arm a" % (last(p), M), where)
+    r.floor("arm-grouping functions of the jump-table lowering", n_inst, 1)
